@@ -339,7 +339,8 @@ MANIFEST = {
             "Cardinal operator composed with the basis matrices and the source is identical, so "
             "the solution is the same phase-space function up to the dense solve. (c) "
             "setBackground deep-copies and boosts (wall velocity -> -velocityMid)."
-            " getBoltzmannFiniteDifference builds a Cardinal-basis twin with the same operator and leaves the spectral solver (collision data, basis labels, settings) untouched.",
+            " getBoltzmannFiniteDifference builds a Cardinal-basis twin with the same operator and leaves the spectral solver (collision data, basis labels, settings) untouched."
+            " Weak backgrounds (tiny variation or small units) are still solved: residual at rounding level relative to the source, linear response, no cut-off to zero (ground check with the real dense solve).",
     "note": "needs the WALLGO_VERIF hook (derivative arrays); linear solve, f_eq' and "
             "non-polynomial convergence are outside.",
 }
